@@ -389,3 +389,25 @@ pub fn sem_book(book: &Spreadsheet) -> BookDump {
     );
     d
 }
+
+/// A sheet projection without the style part of cells, rows and columns, and without blank
+/// cells that carry nothing but a style (used where a file's own default record
+/// `cellXfs[0]` makes "no style" and "default style" indistinguishable: see C03's open
+/// finding implicit-xf0/style-not-applied).
+pub fn strip_styles(d: &SheetDump) -> SheetDump {
+    let mut d = d.clone();
+    d.cells.retain(|_, v| !v.starts_with("kind=blank text=\"\" formula=\"\" link=None"));
+    for m in [&mut d.rows, &mut d.cols] {
+        for v in m.values_mut() {
+            if let Some(i) = v.rfind(" style=") {
+                v.truncate(i);
+            }
+        }
+    }
+    for v in d.cells.values_mut() {
+        if let Some(i) = v.rfind(" style=") {
+            v.truncate(i);
+        }
+    }
+    d
+}
